@@ -270,9 +270,11 @@ META = dict(
                 "'fatal error: concurrent map read and map write'; a repair needs locking in every container access (for-in, del, len, add, index), "
                 "so it is recorded; the mutex-protected variants of the same programs never crash (checked on every run). "
                 "Not proved: error_in_sink_local (in the declared reading) / match_total / sink_attr_total of DESIGN 4 (the engine is not modelled: "
-                "tested by families A, E, K, T and modes s/d/f/m/w only). model_is_guard_then_primitive ties list read, map-literal store and == to "
-                "definitions of Ecal.Ev; for %, operand checks, del, add the guard in Eval.lean is the same BY INSPECTION and tied to Go by the directed "
-                "cases. `for a in f()` with f returning an iterator never ends: C04's finding, out of scope here. The census is data, not an obligation."),
+                "tested by families A, E, K, T and modes s/d/f/m/w only). model_is_guard_then_primitive + ev_computes_guarded_sites tie ALL seven value-level sites to "
+                "definitions of Ecal.Ev (eval on modint, numOp, delB, addB are equations whose right sides contain the Site functions). "
+                "prims_builtins_agree_with_ev ties the Prims transcriptions of len / del / add to the evaluator's lenB / delB / addB (same class on "
+                "every argument vector and heap unless the model leaves itself); concat, range, raise, type and the two engine transcriptions "
+                "(sinkAttrSite, stateKeySite) stay transcription-only. `for a in f()` with f returning an iterator never ends: C04's finding, out of scope here. The census is data, not an obligation."),
 )
 
 
